@@ -9,18 +9,25 @@
    configuration) relative to a visible horizon [vis] that every operation carries.
 
    What one operation does (each is processed to quiescence, as the harness does):
-     MPush        applyCombined: sortUpdatesByPts, then pts -> pts box, qts -> qts box,
-                  channel -> that channel's box (in reality on the channel goroutine),
-                  plain updates dispatched at the end; box apply = dispatch, then Set*Pts
+     MPushC       one update container (seq = 0: applyCombined directly; seq > 0: through the
+                  seq box, applySeq applies the accepted containers in order); applyCombined:
+                  sortUpdatesByPts, then pts -> pts box, qts -> qts box, channel -> that
+                  channel's box (in reality on the channel goroutine), plain updates dispatched
+                  at the end; box apply = dispatch, then Set*Pts; updatePtsChanged in an
+                  applied container -> getDifference afterwards
      MTooLong / MTimerCommon     internalState.getDifference (recursive on slice / too long)
      MChanTooLong / MTimerChan   channelState.getDifference (recursive while not final)
      MStartup     startup getDifference + channel-subscribe getDifference of every channel
    Trace alphabet: Deliver seq id | Persist seq value | TooLong seq, in program order of the
    goroutine that owns the sequence (the real interleaving ACROSS sequences differs; every
    statement below is per sequence and insensitive to it).
-   Not modelled: the seq box and dates (all pushes carry seq = 0, date = 0), access-hash
-   bookkeeping (peers known), untracked channels (ignored), qts = 0 direct dispatch, the
-   diffTimeout wait and sendOut's dropping of queued channel updates, affectedPts. *)
+   The seq sequence is box -2 (numbered containers, applySeq, updatePtsChanged); a channel
+   that has no storage record yet becomes tracked by its first pushed update
+   (handleChannel: SetChannelPts(pts - count), new worker, channel-subscribe difference).
+   Not modelled: dates (all pushes carry date = 0), access-hash bookkeeping (peers known),
+   a first update of an untracked channel that does not start at that channel's base
+   (ignored), qts = 0 direct dispatch, the diffTimeout wait and sendOut's dropping of queued
+   channel updates, affectedPts. *)
 From Coq Require Import ZArith List Bool.
 From TD Require Import Gen.GapCheck Model.SeqBox.
 Import ListNotations.
@@ -34,20 +41,35 @@ Definition upd_of (e : entry) : upd :=
   {| uid := eid e; ust := epos e; ucnt := if eseq e =? 1 then 1 else ecnt e |}.   (* handleQts: Count 1 *)
 
 Record config := {
-  nseq : Z;                 (* sequences 0 .. nseq-1 exist (2 + number of tracked channels) *)
-  base : Z -> Z;            (* initially persisted = initial local position *)
+  nseq : Z;                 (* sequences 0 .. nseq-1 exist (2 + number of channels) *)
+  base : Z -> Z;            (* initially persisted = initial local position; for a channel without
+                               storage record: the start of the first update pushed for it *)
+  tracked0 : Z -> bool;     (* channels with a storage record at startup *)
   slice_lim : Z; tl_thr : Z; cslice_lim : Z; ctl_thr : Z
 }.
+Definition SEQ : Z := -2.   (* key of the seq box; the server's seq horizon is vis (nseq c) *)
 
 Inductive tev := Deliver (s id : Z) | Persist (s v : Z) | TooLong (s : Z).
 
-Record mgr := { mbox : Z -> box; mtr : list tev; moof : bool }.
+Record mgr := { mbox : Z -> box; mtr : list tev; moof : bool;
+                mtracked : Z -> bool;                          (* channel workers that exist *)
+                mconts : list (Z * (list Z * bool)) }.          (* contents of the containers seen *)
 Definition set_box (m : mgr) (s : Z) (b : box) : mgr :=
-  {| mbox := fun s' => if s' =? s then b else mbox m s'; mtr := mtr m; moof := moof m |}.
+  {| mbox := fun s' => if s' =? s then b else mbox m s'; mtr := mtr m; moof := moof m;
+     mtracked := mtracked m; mconts := mconts m |}.
 Definition emit (m : mgr) (evs : list tev) : mgr :=
-  {| mbox := mbox m; mtr := mtr m ++ evs; moof := moof m |}.
+  {| mbox := mbox m; mtr := mtr m ++ evs; moof := moof m; mtracked := mtracked m; mconts := mconts m |}.
+Definition set_oof (m : mgr) : mgr :=
+  {| mbox := mbox m; mtr := mtr m; moof := true; mtracked := mtracked m; mconts := mconts m |}.
+Definition set_tracked (m : mgr) (s : Z) : mgr :=
+  {| mbox := mbox m; mtr := mtr m; moof := moof m;
+     mtracked := fun s' => if s' =? s then true else mtracked m s'; mconts := mconts m |}.
+Definition add_cont (m : mgr) (cid : Z) (ids : list Z) (p : bool) : mgr :=
+  {| mbox := mbox m; mtr := mtr m; moof := moof m; mtracked := mtracked m;
+     mconts := (cid, (ids, p)) :: mconts m |}.
 Definition mgr_init (c : config) : mgr :=
-  {| mbox := fun s => box_init (base c s); mtr := []; moof := false |}.
+  {| mbox := fun s => box_init (if s =? SEQ then 0 else base c s); mtr := []; moof := false;
+     mtracked := tracked0 c; mconts := [] |}.
 
 (* apply callback of the box of sequence s: dispatch, then SetPts / SetQts / SetChannelPts
    (applyQts does not store a zero qts) *)
@@ -69,40 +91,28 @@ Section Isort.
   Definition isort (l : list A) : list A := fold_left (fun acc x => ins_key x acc) l [].
 End Isort.
 
-(* ---- push: applyCombined (fromDifference = false) ---- *)
-(* sortUpdatesByPts: plain first, common pts by start, qts by qts, channels by (id, start);
-   positions in the harness are far below 2^20 *)
-Definition route_key (e : entry) : Z :=
-  if eseq e <? 0 then 0
-  else if eseq e =? 0 then 1048576 + (epos e - ecnt e)
-  else if eseq e =? 1 then 2 * 1048576 + epos e
-  else (1 + eseq e) * 1048576 + (epos e - ecnt e).
-
-Definition push_item (c : config) (m : mgr) (e : entry) : mgr :=
-  let s := eseq e in
-  if (0 <=? s) && (s <? nseq c) then
-    let '(b', evs) := handle (mbox m s) (upd_of e) in
-    emit (set_box m s b') (evs_trace s evs)
-  else m.      (* plain: collected and dispatched last; untracked channel: not modelled *)
-
-Definition find_entry (log : list entry) (id : Z) : list entry :=
-  match find (fun e => eid e =? id) log with Some e => [e] | None => [] end.
-
-Definition push (c : config) (log : list entry) (m : mgr) (ids : list Z) : mgr :=
-  let items := isort route_key (flat_map (find_entry log) ids) in
-  let m1 := fold_left (push_item c) items m in
-  emit m1 (map (fun e => Deliver (-1) (eid e)) (filter (fun e => eseq e <? 0) items)).
-
 (* ---- the server oracle ---- *)
 Definition pend (log : list entry) (s from to : Z) : list entry :=
   isort epos (filter (fun e => (eseq e =? s) && (from <? epos e) && (epos e <=? to)) log).
 
 Definition dflt_entry : entry := {| eid := 0; ekind := 6; eseq := -1; epos := 0; ecnt := 0 |}.
-(* (cut, sliced): with a limit, the position of the lim-th pending entry *)
+(* channel difference: (cut, sliced); with a limit, the position of the lim-th pending entry *)
 Definition slice_cut (lim : Z) (pp : list entry) (vis : Z) : Z * bool :=
   if (0 <? lim) && (lim <? Z.of_nat (length pp))
   then (epos (nth (Z.to_nat (lim - 1)) pp dflt_entry), true)
   else (vis, false).
+(* common difference: the pending pts and qts entries in log (publication) order; a slice is
+   a prefix of lim entries of that list, the intermediate state is the highest position taken *)
+Definition in_range (vis : Z -> Z) (reqp reqq : Z) (e : entry) : bool :=
+  ((eseq e =? 0) && (reqp <? epos e) && (epos e <=? vis 0)) ||
+  ((eseq e =? 1) && (reqq <? epos e) && (epos e <=? vis 1)).
+Definition max_pos (s : Z) (d : Z) (l : list entry) : Z :=
+  fold_left (fun acc e => if eseq e =? s then Z.max acc (epos e) else acc) l d.
+Definition slice_cut2 (lim : Z) (log : list entry) (vis : Z -> Z) (reqp reqq : Z) : Z * Z * bool :=
+  let mg := filter (in_range vis reqp reqq) log in
+  if (0 <? lim) && (lim <? Z.of_nat (length mg))
+  then let pre := firstn (Z.to_nat lim) mg in (max_pos 0 reqp pre, max_pos 1 reqq pre, true)
+  else (vis 0, vis 1, false).
 
 Definition set_state (m : mgr) (s v : Z) : mgr :=
   set_box m s (fst (step (mbox m s) (SeqBox.SetState v))).
@@ -113,27 +123,28 @@ Definition delivers (es : list entry) : list tev := map (fun e => Deliver (eseq 
 (* internalState.getDifference *)
 Fixpoint get_diff (fuel : nat) (c : config) (log : list entry) (vis : Z -> Z) (m : mgr) : mgr :=
   match fuel with
-  | O => {| mbox := mbox m; mtr := mtr m; moof := true |}
+  | O => set_oof m
   | S f =>
-    let m := clear_gaps (clear_gaps m 0) 1 in
+    let m := clear_gaps (clear_gaps (clear_gaps m 0) 1) SEQ in
     let reqp := bstate (mbox m 0) in
     let reqq := bstate (mbox m 1) in
     let pp := pend log 0 reqp (vis 0) in
     let qq := pend log 1 reqq (vis 1) in
     match pp ++ qq with
-    | [] => m                                                  (* updates.differenceEmpty *)
+    | [] => set_state m SEQ (vis (nseq c))                     (* updates.differenceEmpty *)
     | _ :: _ =>
       if (0 <? tl_thr c) && (vis 0 - reqp >? tl_thr c) then     (* updates.differenceTooLong *)
         let m := emit m [TooLong 0; Persist 0 (vis 0)] in
         get_diff f c log vis (set_state m 0 (vis 0))
       else
-        let '(cut, sliced) := slice_cut (slice_lim c) pp (vis 0) in
+        let '(cut, cutq, sliced) := slice_cut2 (slice_lim c) log vis reqp reqq in
         let pp' := pend log 0 reqp cut in
-        let others := filter (fun e => negb (is_msg e)) pp' ++ filter (fun e => negb (is_msg e)) qq in
-        let msgs := filter is_msg pp' ++ filter is_msg qq in
+        let qq' := pend log 1 reqq cutq in
+        let others := filter (fun e => negb (is_msg e)) pp' ++ filter (fun e => negb (is_msg e)) qq' in
+        let msgs := filter is_msg pp' ++ filter is_msg qq' in
         (* other_updates dispatched directly, then new messages, then storage.SetState, then setState *)
-        let m := emit m (delivers others ++ delivers msgs ++ [Persist 0 cut; Persist 1 (vis 1)]) in
-        let m := set_state (set_state m 0 cut) 1 (vis 1) in
+        let m := emit m (delivers others ++ delivers msgs ++ [Persist 0 cut; Persist 1 cutq]) in
+        let m := set_state (set_state (set_state m 0 cut) 1 cutq) SEQ (vis (nseq c)) in
         if sliced then get_diff f c log vis m else m
     end
   end.
@@ -141,7 +152,7 @@ Fixpoint get_diff (fuel : nat) (c : config) (log : list entry) (vis : Z -> Z) (m
 (* channelState.getDifference for sequence s >= 2 *)
 Fixpoint chan_diff (fuel : nat) (c : config) (log : list entry) (vis : Z -> Z) (s : Z) (m : mgr) : mgr :=
   match fuel with
-  | O => {| mbox := mbox m; mtr := mtr m; moof := true |}
+  | O => set_oof m
   | S f =>
     let m := clear_gaps m s in
     let req := bstate (mbox m s) in
@@ -161,25 +172,80 @@ Fixpoint chan_diff (fuel : nat) (c : config) (log : list entry) (vis : Z -> Z) (
     end
   end.
 
+Definition fuel_of (log : list entry) : nat := S (S (S (length log))).
+
+(* ---- applyCombined (fromDifference = false) ---- *)
+(* sortUpdatesByPts: plain first, common pts by start, qts by qts, channels by (id, start);
+   positions in the harness are far below 2^20 *)
+Definition route_key (e : entry) : Z :=
+  if eseq e <? 0 then 0
+  else if eseq e =? 0 then 1048576 + (epos e - ecnt e)
+  else if eseq e =? 1 then 2 * 1048576 + epos e
+  else (1 + eseq e) * 1048576 + (epos e - ecnt e).
+
+Definition box_item (m : mgr) (s : Z) (e : entry) : mgr :=
+  let '(b', evs) := handle (mbox m s) (upd_of e) in
+  emit (set_box m s b') (evs_trace s evs).
+
+Definition push_item (c : config) (log : list entry) (vis : Z -> Z) (m : mgr) (e : entry) : mgr :=
+  let s := eseq e in
+  if (0 <=? s) && (s <? nseq c) then
+    if (s <? 2) || mtracked m s then box_item m s e
+    else if ustart (upd_of e) =? base c s then
+      (* handleChannel, no record yet: SetChannelPts(pts - count), new worker, channel-subscribe
+         difference, then the update itself *)
+      let m := set_tracked (emit m [Persist s (base c s)]) s in
+      box_item (chan_diff (fuel_of log) c log vis s m) s e
+    else m            (* not modelled *)
+  else m.             (* plain: collected and dispatched last; unknown channel: not modelled *)
+
+Definition find_entry (log : list entry) (id : Z) : list entry :=
+  match find (fun e => eid e =? id) log with Some e => [e] | None => [] end.
+
+Definition push (c : config) (log : list entry) (vis : Z -> Z) (m : mgr) (ids : list Z) : mgr :=
+  let items := isort route_key (flat_map (find_entry log) ids) in
+  let m1 := fold_left (push_item c log vis) items m in
+  emit m1 (map (fun e => Deliver (-1) (eid e)) (filter (fun e => eseq e <? 0) items)).
+
+(* ---- one pushed container ---- *)
+Definition cont_of (m : mgr) (cid : Z) : list Z * bool :=
+  match find (fun x => fst x =? cid) (mconts m) with Some x => snd x | None => ([], false) end.
+Definition dlv_upds (evs : list bev) : list upd :=
+  flat_map (fun ev => match ev with Dlv _ us => us | Pnc => [] end) evs.
+
+(* everything handleSeq / applySeq do before the optional getDifference:
+   (manager after applying the accepted containers, recover?, final seq box) *)
+Definition pushc_apply (c : config) (log : list entry) (vis : Z -> Z) (m : mgr)
+           (cid sq : Z) (ids : list Z) (p : bool) : mgr * bool * option box :=
+  if sq =? 0 then (push c log vis m ids, p, None)
+  else
+    let m := add_cont m cid ids p in
+    let '(sb, evs) := handle (mbox m SEQ) {| uid := cid; ust := sq; ucnt := 1 |} in
+    let us := dlv_upds evs in
+    let m1 := fold_left (fun m u => push c log vis m (fst (cont_of m (uid u)))) us m in
+    (m1, existsb (fun u => snd (cont_of m (uid u))) us, Some sb).
+
 Inductive mop :=
-| MPush (vis : Z -> Z) (ids : list Z)
+| MPushC (vis : Z -> Z) (cid sq : Z) (ids : list Z) (p : bool)
 | MTooLong (vis : Z -> Z)
 | MChanTooLong (vis : Z -> Z) (s : Z)
 | MTimerCommon (vis : Z -> Z)
 | MTimerChan (vis : Z -> Z) (s : Z)
 | MStartup (vis : Z -> Z).
 
-Definition fuel_of (log : list entry) : nat := S (S (length log)).
 Definition chan_seqs (c : config) : list Z := map (fun i => 2 + Z.of_nat i) (seq 0 (Z.to_nat (nseq c - 2))).
 
 Definition mstep (c : config) (log : list entry) (m : mgr) (o : mop) : mgr :=
   match o with
-  | MPush _ ids => push c log m ids
+  | MPushC vis cid sq ids p =>
+    let '(m1, recover, sb) := pushc_apply c log vis m cid sq ids p in
+    let m2 := if recover then get_diff (fuel_of log) c log vis m1 else m1 in
+    match sb with Some b => set_box m2 SEQ b | None => m2 end       (* box.setState after apply returned *)
   | MTooLong vis | MTimerCommon vis => get_diff (fuel_of log) c log vis m
   | MChanTooLong vis s | MTimerChan vis s =>
-    if (2 <=? s) && (s <? nseq c) then chan_diff (fuel_of log) c log vis s m else m
+    if (2 <=? s) && (s <? nseq c) && mtracked m s then chan_diff (fuel_of log) c log vis s m else m
   | MStartup vis =>
-    fold_left (fun m s => chan_diff (fuel_of log) c log vis s m) (chan_seqs c)
+    fold_left (fun m s => chan_diff (fuel_of log) c log vis s m) (filter (tracked0 c) (chan_seqs c))
               (get_diff (fuel_of log) c log vis m)
   end.
 Definition mrun (c : config) (log : list entry) (ops : list mop) : mgr :=
